@@ -151,6 +151,10 @@ class C16(Campaign):
         for r in chosen:
             files[r] = {"name": r + ".out", "as": how if how != "mixed" else rnd.choice(["object", "path", "observer"]), "mode": mode}
         sc["files"] = files
+        objs = [r for r in ("trajectory", "restart_file") if r in files and files[r]["as"] == "object"]
+        if len(sc["steps"]) > 1 and objs and rnd.random() < 0.35:
+            # between the two runs the user hands the same open file objects to the simulation again
+            sc["edits"] = [{"before_segment": 1, "reassign_outputs": objs}]
         sc["bufsize"] = rnd.choice([16, 200, 8192, 8192, 1 << 20])
         if driver == "ForceBias":
             sc["params"]["delta"] = gen.logu(rnd, 0.01, 0.3)
@@ -195,12 +199,17 @@ class C16(Campaign):
             disk.trace = trace
         ref = [None]
         rec = Recorder(disk, ref)
+
+        def wrap(world, _ed=None):
+            obs = world.mc.file_manager.observers
+            for name in list(obs):
+                if not isinstance(obs[name], ObsProbe):
+                    obs[name] = ObsProbe(obs[name], name, rec)
+
         with PathPatch(disk):
-            w = make_world(sc, (), {"simgen": False, "probe_check_move": False}, disk)
+            w = make_world(sc, (), {"simgen": False, "probe_check_move": False, "on_user_edit_cb": wrap}, disk)
         ref[0] = w
-        obs = w.mc.file_manager.observers
-        for name in list(obs):
-            obs[name] = ObsProbe(obs[name], name, rec)
+        wrap(w)
         return disk, w, rec
 
     def execute(self, sc: dict) -> dict:
